@@ -231,3 +231,60 @@ package build
 //@   callsite fs.RecursiveCopyOrLinkFile from_source_to_output [C01 C34]: arg_from == from && arg_to == to && called("fs.RemoveAll")
 //@   ensures recorded_hash_follows_the_source [C01]: result1 == nil && !old(in(to, builder.built)) ==> called("(PathHasher).CopyHash")
 //@   ensures same_file_is_unchanged [C03]: result1 == nil && !old(in(to, builder.built)) && same ==> !result0
+
+// ---------------------------------------------------------------------------------------------
+// Every build-relevant attribute is fed to the rule hash (C08)
+//
+// Ghost set W: the strings written to the hash so far (one element per Write call; the set only grows).
+// The contract states, attribute by attribute, that its value — every element for list attributes — has
+// been written when ruleHash returns. This is the necessary half of "a changed attribute changes the
+// hash"; that different attribute values also give different STREAMS is not provable here (writes are
+// concatenated without separators, so ["ab","c"] and ["a","bc"] collide: recorded in DESIGN.md, not claimed).
+//@ func hashBool
+//@   modifies nothing
+//@ func hashOptionalBool
+//@   modifies nothing
+//@ func hashMap
+//@   requires writer != nil
+//@   modifies nothing
+//@   opt nopanic=off
+//@   callsite (Writer).Write collect W string: string(arg_p)
+//@   invariant "range eps" keys_are_the_domain: len(keys) == idx && (forall k string :: visited(k) ==> (exists j int :: 0 <= j && j < idx && keys[j] == k)) && \
+//@      (forall j int :: 0 <= j && j < idx ==> in(keys[j], eps))
+//@   invariant "range keys" written_so_far: forall j int :: 0 <= j && j < idx ==> collected(W, keys[j] + "=" + eps[keys[j]])
+//@   ensures every_entry_is_hashed [C08]: forall k string :: in(k, eps) ==> collected(W, k + "=" + eps[k])
+//
+//@ func ruleHash
+//@   requires state != nil && target != nil
+//@   opt nopanic=off
+//@   opt inline=off
+//@   opt precall=off
+//@   opt permutation=multiset
+//@   callsite (Writer).Write collect W string: string(arg_p)
+//@   callsite hashMap collect HM map[string]string: arg_eps
+//@   invariant "range target.DeclaredDependencies()" deps: forall k int :: 0 <= k && k < idx ==> collected(W, target.DeclaredDependencies()[k].String())
+//@   invariant "range target.Hashes" hashes: forall k int :: 0 <= k && k < idx ==> collected(W, target.Hashes[k])
+//@   invariant "range target.AllSources()" srcs: forall k int :: 0 <= k && k < idx ==> collected(W, target.AllSources()[k].String())
+//@   invariant "range target.DeclaredOutputs()" outs: forall k int :: 0 <= k && k < idx ==> collected(W, target.DeclaredOutputs()[k])
+//@   invariant "range target.OptionalOutputs" optional: forall k int :: 0 <= k && k < idx ==> collected(W, target.OptionalOutputs[k])
+//@   invariant "range target.Labels" labels: forall k int :: 0 <= k && k < idx ==> collected(W, target.Labels[k])
+//@   invariant "range target.Secrets" secrets: forall k int :: 0 <= k && k < idx ==> collected(W, target.Secrets[k])
+//@   invariant "range target.Requires" requires_: forall k int :: 0 <= k && k < idx ==> collected(W, target.Requires[k])
+//@   invariant "range target.OutputDirectories" outdirs: forall k int :: 0 <= k && k < idx ==> collected(W, string(target.OutputDirectories[k]))
+//@   invariant "range *target.PassEnv" passenv: forall k int :: 0 <= k && k < idx ==> \
+//@      collected(W, deref(target.PassEnv)[k]) && collected(W, os.Getenv(deref(target.PassEnv)[k]))
+//@   ensures label [C08]: collected(W, target.Label.String())
+//@   ensures deps [C08]: forall k int :: 0 <= k && k < len(target.DeclaredDependencies()) ==> collected(W, target.DeclaredDependencies()[k].String())
+//@   ensures declared_hashes [C08]: forall k int :: 0 <= k && k < len(target.Hashes) ==> collected(W, target.Hashes[k])
+//@   ensures srcs [C08]: forall k int :: 0 <= k && k < len(target.AllSources()) ==> collected(W, target.AllSources()[k].String())
+//@   ensures outs [C08]: forall k int :: 0 <= k && k < len(target.DeclaredOutputs()) ==> collected(W, target.DeclaredOutputs()[k])
+//@   ensures optional_outs [C08]: forall k int :: 0 <= k && k < len(target.OptionalOutputs) ==> collected(W, target.OptionalOutputs[k])
+//@   ensures labels [C08]: forall k int :: 0 <= k && k < len(target.Labels) ==> collected(W, target.Labels[k])
+//@   ensures secrets [C08]: forall k int :: 0 <= k && k < len(target.Secrets) ==> collected(W, target.Secrets[k])
+//@   ensures requires_ [C08]: forall k int :: 0 <= k && k < len(target.Requires) ==> collected(W, target.Requires[k])
+//@   ensures output_dirs [C08]: forall k int :: 0 <= k && k < len(target.OutputDirectories) ==> collected(W, string(target.OutputDirectories[k]))
+//@   ensures pass_env [C08 C10]: target.PassEnv != nil ==> (forall k int :: 0 <= k && k < len(deref(target.PassEnv)) ==> \
+//@      collected(W, deref(target.PassEnv)[k]) && collected(W, os.Getenv(deref(target.PassEnv)[k])))
+//@   ensures command [C08]: collected(W, target.GetCommand(state))
+//@   ensures file_content [C08]: collected(W, target.FileContent)
+//@   ensures entry_points_and_env [C08]: collected(HM, target.EntryPoints) && collected(HM, target.Env)
